@@ -2,7 +2,10 @@
 FormatterFilter) run on the real nodes vs Json.v / Formatters.v / CloudEvents.v evaluated by vm_compute."""
 import json
 import os
+import re
 import vcheck as V
+
+_M_ITEM = re.compile(r"\((\d+)(?:%N)?,\((\d+)(?:%N)?,(\d+)(?:%N)?,(\w+)\)\)")
 
 NODE = {"C14": {1: "JSONFormatter", 2: "JSONFormatterFilter", 3: "Filter", 4: "FormatTable"},
         "C18": {1: "cloudevents-json", 2: "cloudevents-text", 3: "invalid-config", 4: "sequence"}}
@@ -12,6 +15,24 @@ ARGS = {
     ("C14", "thorough"): ["-modes", "grid,strings,random,table", "-random", "20000", "-depth", "4", "-table", "2000"],
     ("C18", "quick"): ["-modes", "grid,random", "-random", "300"],
     ("C18", "thorough"): ["-modes", "grid,random", "-random", "8000", "-depth", "4"],
+}
+PRIORITY = ["KModel", "KErr", "KFwd", "KBytes", "KDoc", "KSignIn", "KOther", "KFrame", "KLine", "KParse", "KFields", "KSer", "KDecode", "KLww", "KFresh"]
+MEANING = {
+    "KModel": "harness defect: generated value outside the model's grammar",
+    "KErr": "an error is returned where the model returns none, or the reverse",
+    "KFwd": "the event is forwarded where the model drops/fails it, or the reverse",
+    "KBytes": "the bytes stored under json differ from Json.render of the envelope",
+    "KDoc": "the stored cloudevents document differs from the model's document (or is stored / not stored contrary to the model)",
+    "KSignIn": "the signer was not called with exactly the unsigned document, or was called for an unlisted type",
+    "KOther": "an entry of the format table that must not change changed",
+    "KFrame": "the event's type, time or payload was altered",
+    "KLine": "the stored value is not one newline-terminated line",
+    "KParse": "the stored value does not parse back to the required members",
+    "KFields": "a required member of the stored document is missing or wrong",
+    "KSer": "serialized / serialized_hmac do not verify against the signer's input and result",
+    "KDecode": "Go's own decoder disagrees with the expected image",
+    "KLww": "Format result or final table is not last-writer-wins",
+    "KFresh": "a fresh id is empty or repeated",
 }
 DRIVER = {"C14": "fmth", "C18": "cloudh"}
 RUNFILE = {"C14": "Run_Formatters", "C18": "Run_CloudEvents"}
@@ -93,7 +114,7 @@ def run(ctx):
         cid = int(p.split()[1].rstrip(":"))
         rp = V.write_replay(ctx, "panic-%d" % cid, {"kind": "correspondence", "engine": drv, "what": p, "case": cases.get(cid)})
         ctx.violations.append({"match": "%s:panic" % drv, "replay": rp, "what": "the node panicked: " + p})
-    mism, failures = V.eval_shards(ctx, summ["files"])
+    mism, failures = V.eval_shards(ctx, summ["files"], parse=_M_ITEM)
     V.prune_shards(summ["files"], keep=[f for f, _ in failures])
     for f, o in failures:
         rp = V.write_replay(ctx, "coqc-" + os.path.basename(f), {"kind": "correspondence", "theorem_or_correspondence": "%s.mismatches on %s" % (RUNFILE[prop], f), "output": o})
@@ -101,27 +122,29 @@ def run(ctx):
     by_case = {}
     for cid, step, opk, kind in mism:
         by_case.setdefault(int(cid), []).append((int(step), int(opk), kind))
-    harness_defects = {cid: ms for cid, ms in by_case.items() if any(k == "KModel" for _, _, k in ms)}
+    # one line per kind of first disagreement (KErr before KFwd before the stored bytes ...), smallest case as the replay
     sigs = {}
+    first = {}
     for cid, ms in by_case.items():
-        ms.sort()
-        for step, opk, kind in ms:
-            sig = "%s@%s" % (kind, NODE[prop].get(opk, opk))
-            n = _case_size(cases[cid])
-            if sig not in sigs or n < sigs[sig][0]:
-                sigs[sig] = (n, cid, ms)
+        ms.sort(key=lambda m: (m[0], PRIORITY.index(m[2]) if m[2] in PRIORITY else 99))
+        step, opk, kind = ms[0]
+        first[cid] = kind
+        n = _case_size(cases[cid])
+        if kind not in sigs or n < sigs[kind][0]:
+            sigs[kind] = (n, cid, ms)
     for sig, (n, cid, ms) in sorted(sigs.items()):
         c = cases[cid]
-        affected = sum(1 for m2 in by_case.values() if any("%s@%s" % (k, NODE[prop].get(o, o)) == sig for _, o, k in m2))
+        affected = sum(1 for k in first.values() if k == sig)
+        on = NODE[prop].get(ms[0][1], ms[0][1])
         rp = V.write_replay(ctx, "%s-%s" % (drv, sig), {
             "kind": "correspondence", "engine": drv,
             "theorem_or_correspondence": "%s.mismatches (model vs real node, and the property's oracle on the observation)" % RUNFILE[prop],
-            "signature": sig, "all_mismatches_of_case": [{"step": s, "on": NODE[prop].get(o, o), "kind": k} for s, o, k in ms],
-            "case": c, "cases_failing_with_this_signature": affected, "repro": "bin/check replay <this file>"})
-        what = "%s: %s at step %d of case %d (%d cases affected)" % (prop, sig, ms[0][0], cid, affected)
-        if cid in harness_defects and sig.startswith("KModel"):
-            what = "harness defect: generated value outside the model's grammar (case %d)" % cid
-        ctx.violations.append({"match": "%s:%s" % (drv, sig), "replay": rp, "what": what})
+            "signature": sig, "on": on, "meaning": MEANING.get(sig, ""),
+            "all_mismatches_of_case": [{"step": s_, "on": NODE[prop].get(o, o), "kind": k} for s_, o, k in ms],
+            "case": c, "cases_failing_first_with_this_kind": affected, "cases_failing_in_any_way": len(by_case),
+            "repro": "bin/check replay <this file>"})
+        what = "%s: %s on %s (%s) — case %d, %d cases affected" % (prop, sig, on, MEANING.get(sig, ""), cid, affected)
+        ctx.violations.append({"match": "%s:%s@%s" % (drv, sig, on), "replay": rp, "what": what})
     ctx.coverage["evaluations"] += summ["cases"]
     ctx.coverage["distinct_nontrivial"] += summ["distinct_nontrivial"]
     ctx.coverage["traces_validated_against_impl"] = ctx.coverage.get("traces_validated_against_impl", 0) + summ["cases"]
@@ -177,6 +200,17 @@ MANIFEST["C14"] = {
     "design_ref": "5.C14", "note": _NOTE, "technique": _TECH, "engine": "coq-formats"}
 
 
+PROPS["C18"] = check
+MANIFEST["C18"] = {
+    "text": ("CloudEvents.v: validate / id choice / Data() choice / document / encode (Json.render, indented for text) / sign / predicate / table update; theorems ce_fields, "
+             "ce_invalid_config_rejected (+ valid_iff), ce_empty_id_rejected, forwarded_implies_signed + signed_serialized_decodes (b64url_decode serialized = enc unsigned_doc "
+             "via Base64.decode_encode; serialized_hmac = the signer's result on exactly those bytes), sign_failure_not_forwarded, unlisted_never_signed, "
+             "ce_document_parses; ce_fresh_ids_distinct_partial (PARTIAL: uniqueness of fresh ids only under the hypothesis that the id source does not repeat; base62 randomness "
+             "is not modelled). Tie: cloudh runs the configuration product + random payload data on the real node; Run_CloudEvents.mismatches compares the stored document "
+             "byte for byte, decodes serialized inside Coq and compares it with the signer's recorded input"),
+    "design_ref": "5.C18", "note": _NOTE, "technique": _TECH, "engine": "coq-formats"}
+
+
 def handles_replay(rec):
     return rec.get("engine") in ("fmth", "cloudh")
 
@@ -184,6 +218,16 @@ def handles_replay(rec):
 def replay(ctx, rec, path):
     drv = rec["engine"]
     prop = "C14" if drv == "fmth" else "C18"
+    # vcheck.Ctx (created by lib/replay.py before we are called) clears replays/<prop>/, i.e. the very file being replayed
+    # when it lives there: work from the record, and put the file back
+    if not os.path.exists(path):
+        try:
+            os.makedirs(os.path.dirname(os.path.abspath(path)), exist_ok=True)
+            json.dump(rec, open(path, "w"), indent=1)
+        except OSError:
+            pass
+    path = os.path.join(ctx.work, "replay_input.json")
+    json.dump(rec, open(path, "w"))
     if rec.get("kind") == "stress":
         binp, out = V.go_build(ctx, "./cmd/fmth", race=True)
         if not binp:
@@ -204,6 +248,6 @@ def replay(ctx, rec, path):
     print(out)
     rc, out = V.run([binp, "-out", cdir, "-modes", "", "-corpus", corpus])
     summ = json.load(open(os.path.join(cdir, "cases_summary.json")))
-    mism, failures = V.eval_shards(ctx, summ["files"])
+    mism, failures = V.eval_shards(ctx, summ["files"], parse=_M_ITEM)
     print("model vs implementation mismatches (case, step, node, kind):", [(c, s, NODE[prop].get(int(o), o), k) for c, s, o, k in mism], failures)
     return 1 if (mism or failures or summ.get("panics")) else 0
